@@ -58,6 +58,8 @@ def part(tier, seed, which=('map', 'sched'), pid='C08'):
                     v += map_drv.check_map(sim, c, opts['strip_forks'], opts['c_reuse'], capl, cmin)
                 if 'sched' in which:
                     v += map_drv.check_sched(sim, c, opts['strip_forks'])
+                if 'map' in which and cmin == 1:
+                    v += map_drv.check_live_hypotheses(sim, c, opts['strip_forks'])
                 for clause, msg in v:
                     b.violation(f'bounded:{pid}:{clause}', f'{clause} on {sig} {opts}: {msg}', 'bounded.simops_drv:run_case', args,
                                 function='kyupy.sim.SimOps.__init__')
